@@ -18,9 +18,9 @@ import (
 // elements cannot be represented: the target is incompatible and has to be
 // rejected, never answered with another number of rows or with altered values.
 type RepCase struct {
-	Lists  [][]int `json:"lists"`  // per row the elements of the source column (ToRep: only the first is used)
-	Target string  `json:"target"` // "opt" | "req" (source repeated) | "rep" (source required)
-	Entry  string  `json:"entry"`  // Convert+ConvertRowGroup | NewReader(schema) | CopyRows
+	Lists  [][]int `json:"lists"`          // per row the elements of the source column (ToRep: only the first is used)
+	Target string  `json:"target"`         // "opt" | "req" (source repeated) | "rep" (source required)
+	Entry  string  `json:"entry"`          // Convert+ConvertRowGroup | NewReader(schema) | CopyRows
 	NoID   bool    `json:"noid,omitempty"` // the column is the only one of the schema
 	Batch  int     `json:"batch"`
 }
